@@ -29,6 +29,12 @@ package roundrobin
 //@   ensures [C13] (len(r.endpoints) > 0 && len(r.staticWeightRouterCache) == 0) ==> (result0 == r.endpoints[u64(old(r.lastPosition) + 1) % len(r.endpoints)] && r.lastPosition == u64(old(r.lastPosition) + 1))
 //@   ensures [C13] (len(r.endpoints) > 0 && len(r.staticWeightRouterCache) != 0) ==> (result0 == r.endpoints[r.staticWeightRouterCache[u64(old(r.lastStaticWeightPosition) + 1) % len(r.staticWeightRouterCache)]] && r.lastStaticWeightPosition == u64(old(r.lastStaticWeightPosition) + 1))
 //@   ensures rrInv(r)
+// Select runs under the read lock only, concurrently with other selections: both cursors are advanced by an atomic
+// add on that very cursor (a plain increment has the same sequential meaning and is rejected here - a syntactic
+// guard inside the contract, not a proof about interleavings)
+//@   site AddUint64#0 assert [C13] $0 == addr(r.lastStaticWeightPosition) && $1 == 1
+//@   site AddUint64#1 assert [C13] $0 == addr(r.lastPosition) && $1 == 1
+//@   sites AddUint64 = 2
 //@   safety [C13]
 //
 //@ func (*RoundRobin).reBuildLocked
